@@ -230,6 +230,13 @@ def make_lab(spec: dict):
 
 def make_wl(cfg: dict, filepath=None):
     cls = {"evo": EvoWorklist, "fluent": FluentWorklist, "base": BaseWorklist}[cfg["dev"]]
+    if cfg["dev"] == "evo":
+        # `robotools.Worklist` is the (deprecated) public alias of the EVO worklist and takes the same arguments:
+        # content-determined, a quarter of the EVO worklists are created through it
+        import zlib
+        alias = getattr(robotools, "Worklist", None)
+        if alias is not None and zlib.crc32(("alias" + repr(sorted(cfg.items(), key=str))).encode()) % 4 == 0:
+            cls = alias
     return cls(filepath, max_volume=fl(cfg["max_volume"]), auto_split=cfg.get("auto_split", True),
                diti_mode=cfg.get("diti_mode", False))
 
@@ -281,8 +288,14 @@ def apply_op(labs, wl, op: dict):
             with np.errstate(over="ignore", invalid="ignore"):
                 if flat and all(math.isfinite(x) and float(dt(x)) == x for x in flat):
                     vols = np.asarray(vols, dtype=float).astype(dt)
+        wash = op.get("wash", 1)
+        if isinstance(wash, int) and not isinstance(wash, bool):
+            # a wash scheme read from a numpy array / a settings table is a numpy integer (content-determined spelling)
+            import zlib
+            kq = zlib.crc32(("wash" + repr(op.get("src_wells")) + repr(op.get("vols"))).encode()) % 5
+            wash = np.int64(wash) if kq == 0 else np.int32(wash) if kq == 1 else wash
         wl.transfer(labs[op["src"]], arr_str(op["src_wells"]), labs[op["dst"]], arr_str(op["dst_wells"]), vols,
-                    label=op.get("label"), wash_scheme=op.get("wash", 1), partition_by=op.get("partition_by", "auto"),
+                    label=op.get("label"), wash_scheme=wash, partition_by=op.get("partition_by", "auto"),
                     **kwargs_of(op.get("kw", {})))
     elif k == "distribute":
         kw = {n: op[n] for n in ("diti_reuse", "multi_disp", "liquid_class", "label", "direction", "src_rack_id",
